@@ -324,8 +324,20 @@ func (p *Poly) isVar(v *FVar) bool {
 }
 
 // Mul returns p*q.
+// Work counts monomial products; WorkLimit bounds the algebraic work of one process (a computation that
+// exceeds it is outside the forms the polynomial domain can follow: the check reports UNDECIDED instead of hanging).
+var (
+	Work      int64
+	WorkLimit int64 = 60_000_000
+)
+
 func (p *Poly) Mul(q *Poly) *Poly {
 	out := newPoly(p.F)
+	Work += int64(len(p.mons)) * int64(len(q.mons))
+	tick()
+	if Work > WorkLimit {
+		panic(&abort{"analysis budget exceeded: the polynomial computation grows beyond what the domain can follow (a data-dependent loop over field arithmetic, or a formula of very high degree)"})
+	}
 	if len(p.mons)*len(q.mons) > 4_000_000 {
 		panic(&abort{fmt.Sprintf("polynomial blow-up (%d x %d terms): a computation outside the forms the polynomial domain can follow", len(p.mons), len(q.mons))})
 	}
